@@ -27,8 +27,22 @@ class AsyncioRunner(BaseRunner):
         self.asyncio_loop.call_soon_threadsafe(self._setup_payload, payload)
 
     def run_payload(self, payload: Callable[[], Coroutine]):
-        future = asyncio.run_coroutine_threadsafe(payload(), self.asyncio_loop)
-        return future.result()
+        future = asyncio.run_coroutine_threadsafe(
+            self._capture_payload(payload), self.asyncio_loop
+        )
+        failure, result = future.result()
+        if failure is not None:
+            raise failure
+        return result
+
+    @staticmethod
+    async def _capture_payload(payload: Callable[[], Coroutine]):
+        # asyncio re-creates some exceptions (e.g. TimeoutError) when moving them
+        # between futures: hand the original over as a value to preserve it
+        try:
+            return None, await payload()
+        except Exception as err:
+            return err, None
 
     def _setup_payload(self, payload: Callable[[], Awaitable]):
         task = self.asyncio_loop.create_task(self._monitor_payload(payload))
